@@ -160,7 +160,39 @@ fn folding_commit_open(ctx: &mut Ctx, rng: &mut ChaCha20Rng) {
     };
     let len = range(rng, 1, w.max_degree + 1);
     let k = range(rng, 1, 5);
-    let f: Vec<Fr> = (0..len).map(|_| Fr::rand(rng)).collect();
+    let mut f: Vec<Fr> = (0..len).map(|_| Fr::rand(rng)).collect();
+    // zero runs: aligned zero pairs / blocks fold to zero coefficients, zero-padded high or low ends, sparse inputs
+    match rng.next_u32() % 5 {
+        0 => {}
+        1 => {
+            for _ in 0..range(rng, 1, 4) {
+                let blk = 1usize << range(rng, 1, 3);
+                let start = (below(rng, len) / blk) * blk;
+                for x in f.iter_mut().skip(start).take(blk) {
+                    *x = Fr::zero();
+                }
+            }
+        }
+        2 => {
+            let keep = below(rng, len) + 1;
+            for x in f.iter_mut().skip(keep) {
+                *x = Fr::zero();
+            }
+        }
+        3 => {
+            let skip = below(rng, len);
+            for x in f.iter_mut().take(skip) {
+                *x = Fr::zero();
+            }
+        }
+        _ => {
+            for x in f.iter_mut() {
+                if rng.next_u32() % 4 != 0 {
+                    *x = Fr::zero();
+                }
+            }
+        }
+    }
     let ch: Vec<Fr> = (0..k).map(|_| Fr::rand(rng)).collect();
     let etas: Vec<Fr> = (0..k).map(|_| Fr::rand(rng)).collect();
     let buf = [64usize, 1 << 10, 1 << 20][below(rng, 3)];
